@@ -375,6 +375,10 @@ void StateMachine::Impl::stop()
         return;
     }
 
+    //! 如果有子状态机，先停止子状态机
+    if (curr_state_->sub_sm != nullptr)
+        curr_state_->sub_sm->stop();
+
     ++cb_level_;
     if (curr_state_->exit_action)
         curr_state_->exit_action(Event());
